@@ -641,7 +641,20 @@ func genDrv(rng *vh.Rng, idx int) DrvCase {
 		}
 		c.Allocs = append(c.Allocs, a)
 	}
-	e := newDrvEnv(&c)
+	var e *drvEnv
+	func() {
+		defer func() {
+			if x := recover(); x != nil {
+				e = nil
+			}
+		}()
+		e = newDrvEnv(&c)
+	}()
+	if e == nil {
+		c.Ops = []DOp{{Op: "setup", Crash: true, Data: []int{}, Reqs: []ReqJ{}, Out: []int{}, Bufs: []BufJ{}}}
+		c.Coq = drvCoq(&c)
+		return c
+	}
 	nops := 3 + rng.Intn(8)
 	types := []string{"bytes", "bytes", "int32", "float32", "uint64", "struct"}
 	for i := 0; i < nops && !e.stuck; i++ {
